@@ -42,7 +42,8 @@ def strategy(tier):
                      st.one_of(st.sampled_from([0.5, 0.3, 0.1, 0.05, 0.01, 0.001]), gen.fpr_st(9.0)))
     rel = st.sampled_from(["compat", "compat", "compat", "identical", "empty", "geom", "hash", "foreign"])
     common = {"rel": rel, "hash": gen.hash_name_st(), "hash2": gen.hash_name_st(), "pool": gen.pool_st(2, 10),
-              "sa": so.stream_st(False), "sb": so.stream_st(False), "foreign": st.integers(0, 5)}
+              "sa": so.stream_st(False), "sb": so.stream_st(False), "foreign": st.integers(0, 5),
+              "sx": so.stream_st(False, max_len=5), "derive": st.sampled_from([None, None, "ia", "ua", "ib", "ub"])}
     bloom = st.fixed_dictionaries(dict(common, t=st.just("bloom"), geom=geom, geom2=geom,
                                        ka=st.sampled_from(["bloom", "ondisk"]), kb=st.sampled_from(["bloom", "ondisk"])))
     cb = st.fixed_dictionaries(dict(common, t=st.just("cbloom"), geom=geom, geom2=geom))
@@ -126,6 +127,22 @@ def run_case(case, ctx):
                 return
             so.feed(A, ka, pool, ra)
             so.feed(B, kb, pool, rb)
+            der = case.get("derive")
+            if der and rel in ("compat", "identical", "empty"):
+                # an operand may itself be the PRODUCT of an earlier intersection / union (bits set, element count an estimate)
+                rx, _ = so.resolve(case.get("sx", []), len(pool))
+                X = so.make_bloom(ctx, "counting" if counting else "bloom", est, fpr, h1, "x")
+                so.feed(X, "counting" if counting else "bloom", pool, rx)
+                src = A if der[1] == "a" else B
+                prod = (src.intersection if der[0] == "i" else src.union)(X)
+                if prod is not None and prod.elements_added >= 0:
+                    if der[1] == "a":
+                        A, ka = prod, ("counting" if counting else "bloom")
+                    else:
+                        B, kb = prod, ("counting" if counting else "bloom")
+                    ctx.feat("derived_operand_" + der)
+                    if prod.elements_added == 0 and any(so.cells(prod, "counting" if counting else "bloom")):
+                        ctx.feat("derived_operand_bits_set_but_zero_count")
             ba, bb = bytes(A), bytes(B)
             ca, cb_ = so.cells(A, ka), so.cells(B, kb)
             if rel == "foreign":
